@@ -196,6 +196,25 @@ CHECKS = [
               "3..60 over {a,b,c}, depth 3. ReadDir and short reads are not judged.",
          technique="TLA+ model checking (TLC) + replay of TLC-enumerated (BFS) and TLC-sampled (-simulate) operation programs on "
                    "pkg/fuse's mutable mount, commit and download"),
+    dict(id="C19",
+         text="Wal.tla (token generator time, Add as Touch / GetAttr / create-if-absent Put, ListOp with the 20-minute look-back "
+              "as start key) is model-checked: every interleaving of 3 appenders x <= 2 appends with clock ticks and colliding "
+              "nonces (TokensUnique, LaterSecondSortsAfter, IssuedStored, AppendOnly), and the listing operator over every log of "
+              "a token universe, every start token and max (ListNoDupOrdered, ListIncludesWindow, EntryUnchanged). The real "
+              "wal.Add / wal.ListEntries are driven over the in-memory object store with the clock and the KSUID random bits under "
+              "driver control: TLC-generated schedules force the store calls of up to 3 concurrent Adds through the generated "
+              "interleaving; seeded workloads run batches of free-running concurrent Adds under a ticking clock with payload "
+              "classes (empty, multi-line, > 1 KiB, YAML-looking) and listings from issued and synthetic tokens, max 1..1000, up "
+              "to 1200 entries; every history is recorded as a trace of store calls and API results and validated by "
+              "WalTrace.tla, which names every disagreement with the properties",
+         design_ref="§3 C19",
+         note="Trusted: TLC, the refinement token -> <<second, rank of random bits>> / payload -> content id, the in-memory object "
+              "store (start-key listings; checked against ObjectStore.tla in C16). Weak reading: entries older than the look-back "
+              "may be returned, `next` is observed only; look-back 1200 s inclusive as in the code; listings at quiescence or while "
+              "other Adds are held between two store calls. Bounds: quick 176 histories / ~20k events; thorough 2900 histories / "
+              "~430k events, one history of 1200 entries",
+         technique="TLA+ model checking (TLC) + TLC-generated schedules forced on pkg/wal through the gate scheduler + TLC trace "
+                   "validation of recorded histories"),
     dict(id="C16",
          text="ObjectStore.tla is model-checked exhaustively over a hostile key set (pagination = one-page listing, sorted, "
               "duplicate free, exclusive winner); TLC-generated operation histories are replayed on the real localfs store with "
